@@ -309,36 +309,39 @@ Qed.
 Lemma goodc_last : forall s, goodc s -> s <> [] /\ is_ws (last s 0%N) = false.
 Proof. intros s (H1 & _ & H3). auto. Qed.
 
+Lemma last_In : forall A (l : list A) d, l <> [] -> In (last l d) l.
+Proof.
+  induction l as [|a l IH]; intros d H; [congruence|]. destruct l as [|b l']; [now left|].
+  right. change (last (a :: b :: l') d) with (last (b :: l') d). apply IH. discriminate.
+Qed.
+Lemma last_row_cell_good : forall t : list (list str), t <> [] ->
+  Forall (fun r => r <> [] /\ Forall goodc r) t -> goodc (last (last t []) []).
+Proof.
+  intros t Hne Hall. rewrite Forall_forall in Hall.
+  destruct (Hall (last t []) (last_In _ t [] Hne)) as [Hr Hg].
+  rewrite Forall_forall in Hg. apply Hg. now apply last_In.
+Qed.
+Lemma title_goodc : goodc title_ij.
+Proof.
+  split; [discriminate|]. split; [|reflexivity].
+  intros c Hc. cbn in Hc. destruct Hc as [<-|[<-|[<-|[]]]]; discriminate.
+Qed.
+
 Lemma table_of_strs_visible : forall g def,
   (forall i j s, lookup2 g i j = Some s -> goodc s) -> goodc def ->
   visible_ends (table_of_strs s_i s_j g def).
 Proof.
-  intros g def Hg Hdef. unfold visible_ends, table_of_strs. cbn [hd]. split; [discriminate|]. split; [reflexivity|].
-  set (cols := cols_of g). set (rows := rows_of g).
-  set (cell := fun j i => let s := match lookup2 g i j with Some s => s | None => def end in
-                          if str_eqb s def then dot else s).
-  assert (Hcell : forall i j, goodc (cell j i)).
-  { intros i j. unfold cell. cbn zeta. destruct (lookup2 g i j) as [s|] eqn:E.
-    - destruct (str_eqb s def); [apply dot_goodc | eapply Hg; eauto].
-    - rewrite str_eqb_refl. apply dot_goodc. }
-  (* the last cell of the last row is a title, a row label or a data cell: all good *)
-  assert (Hgood : goodc (last (last (((s_j ++ [92%N] ++ s_i) :: map str_of_Z cols) ::
-                                     map (fun j => str_of_Z j :: map (cell j) cols) rows) []) [])).
-  { destruct rows as [|j0 rows'] eqn:Er.
-    - cbn [map last]. destruct cols as [|i0 cols'] eqn:Ec.
-      + cbn [map last]. split; [discriminate|]. split; [intros c Hc; cbn in Hc; intuition; subst; discriminate | reflexivity].
-      + rewrite last_cons_nonempty by discriminate.
-        rewrite (last_default _ _ [] (str_of_Z 0)) by discriminate.
-        rewrite last_map by discriminate. apply str_of_Z_goodc.
-    - rewrite last_cons_nonempty by discriminate.
-      rewrite (last_default _ _ [] ((fun j => str_of_Z j :: map (cell j) cols) 0%Z)) by discriminate.
-      rewrite last_map by discriminate. set (jl := last (j0 :: rows') 0%Z).
-      destruct cols as [|i0 cols'] eqn:Ec.
-      + cbn [map last]. apply str_of_Z_goodc.
-      + rewrite last_cons_nonempty by discriminate.
-        rewrite (last_default _ _ [] (cell jl 0%Z)) by discriminate.
-        rewrite last_map by discriminate. apply Hcell. }
-  apply goodc_last in Hgood. exact Hgood.
+  intros g def Hg Hdef. unfold visible_ends. split; [discriminate|]. split; [reflexivity|].
+  apply goodc_last. apply last_row_cell_good; [discriminate|]. unfold table_of_strs.
+  constructor.
+  - split; [discriminate|]. constructor; [apply title_goodc|]. apply Forall_forall. intros c Hc.
+    apply in_map_iff in Hc. destruct Hc as (z & <- & _). apply str_of_Z_goodc.
+  - apply Forall_forall. intros r Hr. apply in_map_iff in Hr. destruct Hr as (j & <- & _).
+    split; [discriminate|]. constructor; [apply str_of_Z_goodc|]. apply Forall_forall. intros c Hc.
+    apply in_map_iff in Hc. destruct Hc as (i & <- & _).
+    destruct (lookup2 g i j) as [s|] eqn:E.
+    + destruct (str_eqb s def); [apply dot_goodc | eapply Hg; eauto].
+    + rewrite str_eqb_refl. apply dot_goodc.
 Qed.
 
 (* ---------- the printed text of a grid of strings can be read back ---------- *)
